@@ -337,10 +337,74 @@ TABLE.update({
         _IR_NOTE, "3/C09"),
 })
 
-PENDING = [
-    "C01", "C02", "C03", "C04", "C05", "C06", "C07", "C08", "C09", "C10",
-    "C11", "C12", "C13", "C14", "C16", "C17", "C18", "C19",
-]
+TABLE.update({
+    "C14": (
+        True, MC,
+        "exhaustive enumeration of action histories over save/load "
+        "generations for a catalogue of tables, executed on the real code, "
+        "byte-level model",
+        "31 tables (16 known types with canonical bytes incl. tuples / "
+        "variants / mappings with mutable members, 4 known types with "
+        "non-canonical but decodable bytes, 2 wholly unknown types, 4 "
+        "partially unknown types whose unknown part is reached by the bytes "
+        "and 5 where it is not), at IR and at module level; all sequences of "
+        "{leave, read, read twice, read + mutate in place, assign, assign "
+        "after read, change type name with / without a prior read, assign "
+        "the same type name} over 1-2 (thorough 1-3) save/load generations; "
+        "generation 0 is a file built with the descriptor classes. After "
+        "every save the written type name and bytes are compared with the "
+        "model: untouched => byte-identical; unknown name anywhere in the "
+        "type => unchanged even after a read; otherwise => reference encoding "
+        "of the current value under the current type name (never the loaded "
+        "bytes when those differ).",
+        "Trusted: mc/refcodec.py and the table catalogue. Re-tagging is "
+        "exercised for Addr<->uint64_t, int8_t->int64_t, "
+        "sequence<uint8_t>->sequence<uint64_t>.",
+        "3/C14"),
+    "C17": (
+        True, FE,
+        "complete single-fault enumeration over base files (truncations, bit "
+        "flips, byte substitutions, header bytes, structural message faults), "
+        "coherence validator on every returned IR",
+        "7 base files (quick; 15 thorough; 170-1100 bytes, one written by the "
+        "API, the others built with the descriptor classes; together every "
+        "message type, oneof case and reference kind). Every truncation, "
+        "every single-bit flip, 16 (thorough: all 255) substitutions of every "
+        "byte, every header byte x 256 values, and per file ~150 structural "
+        "faults: every ordered pair of node UUIDs made equal, UUIDs of length "
+        "0/15/17, undefined enum numbers, cleared oneofs, interval size below "
+        "contents, message/header version mismatches, nodes listed twice. "
+        "Outcome must be an exception (ValueError specifically for magic / "
+        "version faults) or an IR that passes the coherence validator (C03 "
+        "and C04 conditions, reference kinds, attached referents, contents "
+        "<= size, saves and reloads deep_eq); each load runs under a 5 s "
+        "alarm.",
+        "Trusted: the coherence validator and irgen message builder. Two "
+        "simultaneous faults are outside the bound.",
+        "3/C17"),
+    "C18": (
+        True, MC,
+        "exhaustive all-pairs comparison over the enumerated single-field "
+        "perturbations of a base IR, executed on real objects, "
+        "specification-derived expected value",
+        "369 variants of a 22-node base IR: every single deviation of every "
+        "compared attribute from the boundary tables, every UUID changed, "
+        "every removable child removed, a child of every kind added to every "
+        "parent, every edge removed / relabelled (None <-> all-false label) / "
+        "reversed, expressions removed / moved / kind-switched / attributes "
+        "changed / symbols swapped, payload kind switches, entry point "
+        "changes, block kind switch with equal UUID/offset/size, IR version, "
+        "AuxData key added / removed, plus uncompared changes (AuxData value, "
+        "module order, edge insertion order, construction order, save/load "
+        "copies). For ALL 136k ordered pairs a.deep_eq(b) must equal equality "
+        "of the compared content computed from the two specifications, "
+        "likewise CFG.deep_eq, and node-level deep_eq for every UUID-matched "
+        "node pair between the base and each variant in both directions.",
+        "Trusted: ir_snap / node_snap in mc/checks/c18.py.",
+        "3/C18"),
+})
+
+PENDING = []
 
 
 def build():
